@@ -287,45 +287,70 @@ def conc_layer(sg, k_std, occ, vals, i_np, variant, mt):
     return msgs
 
 
-# ---------------------------------------------------------------------------------- H11c: id prefix
+# ---------------------------------------------------------------------------------- H11c: 2D id differs from the 3D id
+def _id_sessions(real):
+    """material id of the same standardized data analysed as a 2D and as a 3D system; returns the two hashed strings (symbolic
+    run, hashlib recorder) or the two ids (real run)"""
+    out = []
+    for two_d in (True, False):
+        pbc = [True, True, not two_d]
+        if real:
+            from ase import Atoms
+            ds = S.concrete_dataset(47, [("a", 6), ("q", 8)], [[0, 0, 0], [0, 0, 1 / 16]])
+            ds["std_lattice"] = np.array([[float(v) for v in row] for row in layer_lattice(47, 2)])
+            ds["transformation_matrix"] = np.eye(3)
+            n = len(ds.std_types)
+            osys = Atoms(numbers=ds.std_types, scaled_positions=np.full((n, 3), 0.25), cell=np.diag([3.0, 4.0, 5.0]), pbc=pbc)
+            with patched(SA, segfault_protect=lambda fn, d, tol, ds=ds: ds):
+                out.append(SA.SymmetryAnalyzer(osys, symmetry_tol=1e-4).get_material_id())
+        else:
+            yield two_d, pbc
+    if real:
+        yield out
+
+
 def h11c(e):
-    two_d = bool(e.choose(2))
-    ds = S.make_dataset(e, 47, [("a", 6), ("q", 8)])
-    for prm in ds["_params"]:
-        pass
-    ds["std_lattice"] = const_array(layer_lattice(47, 2))
-    ds["transformation_matrix"] = np.eye(3)
-    pbc = [True, True, not two_d]
-    n = len(ds.std_types)
-    osys = StubAtoms(numbers=np.array(ds.std_types), scaled_positions=const_array(np.full((n, 3), 0.25)), cell=const_array([[3, 0, 0], [0, 4, 0], [0, 0, 5]]), pbc=pbc)
-    ses = S.Session([ds])
-    ses.systems = [osys]
-    ses.table = {id(osys): ds}
-    rec = []
+    strings = {}
+    for two_d in (True, False):
+        pbc = [True, True, not two_d]
+        ds = S.make_dataset(e, 47, [("a", 6), ("q", 8)], tag="d" if two_d else "t")
+        ds["std_lattice"] = const_array(layer_lattice(47, 2))
+        ds["transformation_matrix"] = np.eye(3)
+        n = len(ds.std_types)
+        osys = StubAtoms(numbers=np.array(ds.std_types), scaled_positions=const_array(np.full((n, 3), 0.25)), cell=const_array([[3, 0, 0], [0, 4, 0], [0, 0, 5]]), pbc=pbc)
+        ses = S.Session([ds])
+        ses.systems = [osys]
+        ses.table = {id(osys): ds}
+        rec = []
 
-    class Hash:
-        def update(self, b):
-            rec.append(b.decode("utf-8"))
+        class Hash:
+            def update(self, b):
+                rec.append(b.decode("utf-8"))
 
-        def digest(self):
-            return b"x" * 64
+            def digest(self):
+                return b"x" * 64
 
-    class HL:
-        @staticmethod
-        def sha512():
-            return Hash()
+        class HL:
+            @staticmethod
+            def sha512():
+                return Hash()
 
-    def com(system):
-        return np.dot(np.array([SReal.const(F(1, 2))] * 3, dtype=object), system.get_cell())
-    with ses.active(), patched(SA, hashlib=HL), patched(SA.matid.geometry, get_center_of_mass=com):
-        an = ses.start()
-        an.get_material_id()
+        def com(system):
+            return np.dot(np.array([SReal.const(F(1, 2))] * 3, dtype=object), system.get_cell())
+        with ses.active(), patched(SA, hashlib=HL), patched(SA.matid.geometry, get_center_of_mass=com):
+            an = ses.start()
+            an.get_material_id()
+        strings[two_d] = rec
 
     def cex(env):
-        return {"key": "H11c:id-prefix", "what": f"material id string {rec[:1]} for a system with pbc {pbc}", "replay": {"kind": "none"}, "reproduced": True}
-    e.post("the hashed string carries the 2D prefix exactly for two-dimensional inputs", len(rec) == 1 and rec[0].startswith("2D ") == two_d and (rec[0][3:] if two_d else rec[0]).startswith("47 "), cex)
-    e.reach("H11c:2D" if two_d else "H11c:3D")
-    e.sample({"two_dimensional": two_d, "hashed_string": rec[:1]})
+        ids = next(_id_sessions(True))
+        return {"key": "H11c:2D-id-equals-3D-id", "what": f"the material id of a 2D system equals the id of the same cell treated as a 3D crystal ({ids})", "replay": {"kind": "ids"}, "reproduced": ids[0] == ids[1]}
+    ok = len(strings[True]) == 1 and len(strings[False]) == 1
+    e.post("exactly one string is hashed per id", ok, cex)
+    if ok:
+        e.post("the hashed string of the 2D system differs from that of the same cell treated as a 3D crystal", strings[True][0] != strings[False][0], cex)
+    e.reach("H11c")
+    e.sample({"hashed_string_2D": strings[True][:1], "hashed_string_3D": strings[False][:1]})
 
 
 def main(tier, seed, only=None):
@@ -347,7 +372,7 @@ def main(tier, seed, only=None):
         for name, st in pool.imap_unordered(_run, list(_JOBS), chunksize=1):
             rep.merge_stats(st, _JOBS[name][0])
     if not only:
-        rep.require_reached("H11a", "H11b", "H11c:2D", "H11c:3D")
+        rep.require_reached("H11a", "H11b", "H11c")
     rep.bounds = {"H11a": "1-2 (3) atoms anywhere, each axis non-periodic in turn, symbolic length of the non-periodic vector",
                   "H11b": f"{len(list(layers))} layer settings (space groups 1, 6, 47 with the normal along a, b or c, 123, 191, 187), 3 original non-periodic axes x {len(list(variants))} transformation-matrix variants (permutations, sign, in-plane shear), symbolic Wyckoff parameters (normal coordinate <= 1/8) and min_2d_thickness",
                   "H11c": "2D vs 3D periodicity of the same dataset"}
@@ -369,6 +394,9 @@ def replay(d):
         sg, k_std, occ, _ = LAYERS[d["layer"]]
         msgs = conc_layer(sg, k_std, occ, d["params"], d["i_np"], d["variant"], d["min_2d_thickness"])
         return bool(msgs), "; ".join(msgs[:4]) or "ok"
+    if d["kind"] == "ids":
+        ids = next(_id_sessions(True))
+        return ids[0] == ids[1], f"2D id {ids[0]}, 3D id {ids[1]}"
     if d["kind"] == "set_system":
         from ase import Atoms
         c, p = np.array(d["cell"], float), np.array(d["positions"], float)
